@@ -35,10 +35,11 @@ type schedule struct {
 	Eval     bool   `json:"eval"`       // Eval.Run(ctx) + cancel instead of VM.Run + Abort
 	Deadline bool   `json:"deadline"`   // Eval: cancellation by deadline
 	DelayUS  int    `json:"delay_us"`   // "free": extra delay before the abort (stress part)
+	TwoParty bool   `json:"two_party"`  // park the aborter inside Abort until the parked VM passed its flag reset
 }
 
 func (s schedule) String() string {
-	return fmt.Sprintf("%s@%s#%d aborts=%d callers=%d eval=%v deadline=%v", s.Scenario, s.Point, s.K, s.NAborts, s.NCallers, s.Eval, s.Deadline)
+	return fmt.Sprintf("%s@%s#%d aborts=%d callers=%d eval=%v deadline=%v twoparty=%v", s.Scenario, s.Point, s.K, s.NAborts, s.NCallers, s.Eval, s.Deadline, s.TwoParty)
 }
 
 var scenarios = map[string]string{
@@ -91,17 +92,43 @@ type controller struct {
 	rootRunning chan struct{}
 	rootOnce    sync.Once
 	root    *ugo.VM
+	// two-party schedules: the aborter is parked inside Abort (between its two steps)
+	parkAborter   bool
+	aborterParked chan struct{}
+	aborterResume chan struct{}
+	resetHits     chan struct{} // signalled on every run.reset after the target point was hit
 }
 
 func newController(point string, k int) *controller {
 	return &controller{point: point, k: k, hits: map[string]int{}, parked: make(chan struct{}), resume: make(chan struct{}), armed: true,
-		running: map[*ugo.VM]bool{}, rootRunning: make(chan struct{})}
+		running: map[*ugo.VM]bool{}, rootRunning: make(chan struct{}),
+		aborterParked: make(chan struct{}), aborterResume: make(chan struct{}), resetHits: make(chan struct{}, 64)}
 }
 
 func (c *controller) hook(point string, vm *ugo.VM) {
+	if point == "abort.mid" {
+		// the aborting goroutine: parked only in two-party schedules, and only the first time
+		c.mu.Lock()
+		park := c.parkAborter && vm == c.root // Abort of the root VM itself, not the nested Abort of a child
+		if park {
+			c.parkAborter = false
+		}
+		c.mu.Unlock()
+		if park {
+			close(c.aborterParked)
+			<-c.aborterResume
+		}
+		return
+	}
 	c.mu.Lock()
 	switch point {
 	case "run.reset":
+		if c.hit {
+			select {
+			case c.resetHits <- struct{}{}:
+			default:
+			}
+		}
 		if vm != nil {
 			c.running[vm] = true
 			if c.root != nil && vm == c.root {
@@ -272,8 +299,31 @@ func runSchedule(s schedule) outcome {
 		select {
 		case <-ctl.parked:
 			out.hitPoint = true
-			doAbort() // Abort()/cancel() have RETURNED before the parked goroutine continues
-			close(ctl.resume)
+			if s.TwoParty && !s.Eval {
+				// the aborter stops between Abort's two steps; the parked VM then runs through its flag
+				// reset; only then the aborter finishes
+				ctl.mu.Lock()
+				ctl.parkAborter = true
+				ctl.mu.Unlock()
+				abortDone := make(chan struct{})
+				go func() { defer close(abortDone); doAbort() }()
+				select {
+				case <-ctl.aborterParked:
+				case <-abortDone:
+				case <-time.After(time.Second):
+				}
+				close(ctl.resume)
+				select {
+				case <-ctl.resetHits: // the released VM passed its reset
+				case <-time.After(300 * time.Millisecond):
+				case <-done:
+				}
+				close(ctl.aborterResume)
+				<-abortDone
+			} else {
+				doAbort() // Abort()/cancel() have RETURNED before the parked goroutine continues
+				close(ctl.resume)
+			}
 		case <-time.After(300 * time.Millisecond):
 			// the point is not on this scenario's path (or not k times): abort anyway to end the run
 			ctl.mu.Lock()
@@ -449,6 +499,24 @@ func TestCheck(t *testing.T) {
 		}
 	}
 	for _, sc := range scenarioNames {
+		for _, p := range []string{"run.enter", "invoke.checked", "pool.acquired"} {
+			for k := 1; k <= 2; k++ {
+				idx++
+				if shards > 1 && idx%shards != shard {
+					continue
+				}
+				kk := k
+				if p == "run.enter" {
+					if sc == "root-loop" || sc == "root-callback-loop" {
+						continue
+					}
+					kk = k + 1
+				}
+				runOne(schedule{Scenario: sc, Point: p, K: kk, NAborts: 1, NCallers: 1, TwoParty: true})
+			}
+		}
+	}
+	for _, sc := range scenarioNames {
 		for _, p := range evalPoints {
 			idx++
 			if shards > 1 && idx%shards != shard {
@@ -471,6 +539,7 @@ func TestCheck(t *testing.T) {
 			NAborts:  1 + gen.Uniform(rt, 3, "aborts"),
 			NCallers: 1 + gen.Uniform(rt, 3, "callers"),
 			Eval:     gen.Uniform(rt, 3, "eval") == 0,
+			TwoParty: gen.Uniform(rt, 3, "twoparty") == 0,
 		}
 		if s.Eval {
 			s.Point = evalPoints[gen.Uniform(rt, len(evalPoints), "point")]
